@@ -62,6 +62,20 @@ theorem read_conserves (n : Nat) (hn : 0 < n) (st : Stack) (b : Base) (hp : st.p
 
 example : ((Stack.prefixed [1, 2, 3]).read 5 ⟨[[4, 5, 6]], .eof⟩).1.data = [1, 2, 3, 4, 5] := by decide
 
+/-- **Any use of a wrapper.** For every interleaving of `Read(p)` with arbitrary buffer sizes (0, 1,
+one less / equal / one more than the prefix, …) and `TakeRelaySegments`/`TakeRelayPrefix` at any
+point — before any read, after a short read, after the prefix is exhausted — what was handed out, in
+order, followed by what the wrapper still holds and what is left of the stream, is exactly what was
+there at the start; and if a read reported the end of the stream, everything has been handed out. -/
+theorem interleaving_conserves (as : List Act) (st : Stack) (b : Base) (hp : st.poisoned = false) :
+    (runActs as st b).1.flatten ++ ((runActs as st b).2.1.content ++ (runActs as st b).2.2.flat) =
+        st.content ++ b.flat ∨
+    (runActs as st b).1.flatten = st.content ++ b.flat :=
+  runActs_conserves as st b hp
+
+example : runActs [.read 0, .read 1, .take, .read 0, .read 5, .read 5] (.prefixed [1, 2, 3]) ⟨[[4, 5]], .eof⟩ =
+    ([[], [1], [2, 3], [], [4, 5], []], .prefixed [], ⟨[], .eof⟩) := by decide
+
 /-- What a latched stream error does (the only case excluded above): the copy delivers what the
 sniffer had buffered and fails — it never invents, reorders or repeats bytes either. -/
 theorem poisoned_copy_delivers_buffer_only (env : Env) (buf : Bytes) (b : Base) (fuel : Nat)
